@@ -86,6 +86,99 @@ theorem verdict_complete_no_table_tak (basis : Array W) (ev : Pos → Int) (sym 
   rw [hv]
   exact ⟨id, id⟩
 
+/-! ## with a transposition table
+
+The table theorems need the `NoCollision` hypothesis.  For Tak it cannot be `HashInj` ("equal hashes, equal
+positions"): `Position.Hash` ignores the ply counter, so a position and the same board four reversible plies later
+collide by design.  The generic theorems were therefore weakened to `Search.HashOK` (equal hashes ⇒ the same
+three-valued negamax class at every depth); on a domain: `Search.HashOKOn`.
+
+* `TakHashOK basis ev sym D`: `HashOKOn` on the good positions satisfying `D` — a *semantic* hypothesis.
+* `TakNoCollision basis D`: equal hashes ⇒ `Pos.equal` (same board, same side to move) on those positions — the
+  hypothesis the property names.  **Not proved here**: `TakNoCollision → TakHashOK`, i.e. that positions with the same
+  board and mover (differing in the ply counter) have the same legal moves up to `Pos.equal`, the same game end and
+  evaluations of the same class; that is the bisimulation `C06.EqualIsBisim` for the search's instance plus a
+  class-invariance lemma per evaluator.  So the statements with `TakNoCollision` stay `_statement`s and the theorems
+  with `TakHashOK` are `_partial`. -/
+
+/-- the good positions that satisfy `D` (a set closed under applied moves: `DomClosed`) -/
+def TakDom (basis : Array W) (D : Pos → Prop) (q : Pos) : Prop := InvB basis q ∧ D q
+
+/-- equal hashes ⇒ alike for the search's verdicts, among the good positions satisfying `D` -/
+def TakHashOK (basis : Array W) (ev : Pos → Int) (sym : Pos → List H) (D : Pos → Prop) : Prop :=
+  HashOKOn (takGame basis ev sym) (TakDom basis D)
+
+/-- equal hashes ⇒ same board and side to move, among the good positions satisfying `D` -/
+def TakNoCollision (basis : Array W) (D : Pos → Prop) : Prop :=
+  ∀ p q, TakDom basis D p → TakDom basis D q → p.hashOf = q.hashOf → p.equal q = true
+
+theorem takS_none_iff (basis : Array W) (D : Pos → Prop) (k : Nat) (q : Pos) :
+    takS basis D none k q ↔ TakDom basis D q :=
+  ⟨fun h => ⟨h.1, h.2.1⟩, fun h => ⟨h.1, h.2, fun n hn => by cases hn⟩⟩
+
+theorem takHashOK_dom {basis : Array W} {ev : Pos → Int} {sym : Pos → List H} {D : Pos → Prop}
+    (h : TakHashOK basis ev sym D) : HashOKOn (takGame basis ev sym) (takS basis D none 0) :=
+  fun p q hp hq => h p q ((takS_none_iff basis D 0 p).mp hp) ((takS_none_iff basis D 0 q).mp hq)
+
+/-- **`verdict_sound` on Tak** (partial: `TakHashOK` instead of `TakNoCollision`): any history of `Analyze` calls on
+one engine starting new — any good positions of `D`, any table size or none, every call with its own move order and
+cancellation pattern — in a precise configuration: every reported value above `WinThreshold` is a forced win of the
+analysed position (some negamax value over the real legal moves is above the threshold), every value below
+`-WinThreshold` a forced loss; and the engine ends without pass hints. -/
+theorem verdict_sound_tak_partial (basis : Array W) (ev : Pos → Int) (sym : Pos → List H) (hev : EvInside basis ev)
+    (D : Pos → Prop) (hD : DomClosed basis D) (hDt : ∀ q, D q → TakD q) (hcol : TakHashOK basis ev sym D)
+    {cfg : Search.Cfg} (hpr : Precise cfg.opts) (h : History Pos Move)
+    (hh : ∀ x ∈ h, OrderOK x.2 ∧ TakDom basis D x.1) :
+    Sat (runCalls (takGame basis ev sym) cfg h (Eng.new (takGame basis ev sym) cfg)) (fun x =>
+      EngGood IMt x.2 ∧
+      ∀ y ∈ x.1, (y.2 > Facts.winThreshold → Win (takGame basis ev sym) y.1) ∧
+                 (y.2 < -Facts.winThreshold → Loss (takGame basis ev sym) y.1)) :=
+  verdict_sound_restr (takRestr basis ev sym D none hD) (takRestrOK basis ev sym D none)
+    (tak_evInside basis ev sym D none hDt hev) (tak_live basis ev sym D none hDt)
+    (fun _ _ _ hp => takS_none_rank basis D hp) (takHashOK_dom hcol) hpr h
+    (fun x hx => ⟨(hh x hx).1, (takS_none_iff basis D 0 x.1).mpr (hh x hx).2⟩)
+
+/-- the full statement: the same under the hypothesis on hashes alone -/
+def verdict_sound_tak_statement : Prop :=
+  ∀ (basis : Array W) (ev : Pos → Int) (sym : Pos → List H), EvInside basis ev →
+    ∀ (D : Pos → Prop), DomClosed basis D → (∀ q, D q → TakD q) → TakNoCollision basis D →
+    ∀ (cfg : Search.Cfg), Precise cfg.opts → ∀ (h : History Pos Move),
+      (∀ x ∈ h, OrderOK x.2 ∧ TakDom basis D x.1) →
+      Sat (runCalls (takGame basis ev sym) cfg h (Eng.new (takGame basis ev sym) cfg)) (fun x =>
+        ∀ y ∈ x.1, (y.2 > Facts.winThreshold → Win (takGame basis ev sym) y.1) ∧
+                   (y.2 < -Facts.winThreshold → Loss (takGame basis ev sym) y.1))
+
+/-- **`verdict_complete` on Tak** (partial, as above): after any such history (cancel flags monotone), an uncancelled
+`Analyze` of an unfinished good position of `D` reports every forced win / loss that exists within the depth it
+reports -/
+theorem verdict_complete_tak_partial (basis : Array W) (ev : Pos → Int) (sym : Pos → List H)
+    (hev : EvInside basis ev)
+    (D : Pos → Prop) (hD : DomClosed basis D) (hDt : ∀ q, D q → TakD q) (hcol : TakHashOK basis ev sym D)
+    {cfg : Search.Cfg} (hpr : Precise cfg.opts) (h : History Pos Move)
+    (hh : ∀ x ∈ h, OrderOK x.2 ∧ TakDom basis D x.1) (hmono : ∀ x ∈ h, x.2.Monotone)
+    (p : Pos) (hp : TakDom basis D p) (hov : p.gameOver.1 = false) {o : Oracle Move} (hnc : NoCancel o)
+    (hord' : OrderOK o) (rs : List (Pos × Int)) (s : Eng Move) (r : List Move × Int × Stats) (s' : Eng Move)
+    (h1 : runCalls (takGame basis ev sym) cfg h (Eng.new (takGame basis ev sym) cfg) = .ok (rs, s))
+    (h2 : analyze (takGame basis ev sym) cfg o p s = .ok (r, s')) :
+    (negamax (takGame basis ev sym) r.2.2.depth.toNat p > Facts.winThreshold → r.2.1 > Facts.winThreshold) ∧
+    (negamax (takGame basis ev sym) r.2.2.depth.toNat p < -Facts.winThreshold → r.2.1 < -Facts.winThreshold) :=
+  verdict_complete_restr (takRestr basis ev sym D none hD) (takRestrOK basis ev sym D none)
+    (tak_evInside basis ev sym D none hDt hev) (tak_live basis ev sym D none hDt)
+    (fun _ _ _ hp => takS_none_rank basis D hp) (takHashOK_dom hcol) hpr h
+    (fun x hx => ⟨(hh x hx).1, (takS_none_iff basis D 0 x.1).mpr (hh x hx).2⟩) hmono p
+    ((takS_none_iff basis D 0 p).mpr hp) hov hnc hord' rs s r s' h1 h2
+
+def verdict_complete_tak_statement : Prop :=
+  ∀ (basis : Array W) (ev : Pos → Int) (sym : Pos → List H), EvInside basis ev →
+    ∀ (D : Pos → Prop), DomClosed basis D → (∀ q, D q → TakD q) → TakNoCollision basis D →
+    ∀ (cfg : Search.Cfg), Precise cfg.opts → ∀ (h : History Pos Move),
+      (∀ x ∈ h, OrderOK x.2 ∧ TakDom basis D x.1) → (∀ x ∈ h, x.2.Monotone) →
+      ∀ (p : Pos), TakDom basis D p → p.gameOver.1 = false → ∀ (o : Oracle Move), NoCancel o → OrderOK o →
+      ∀ rs s r s', runCalls (takGame basis ev sym) cfg h (Eng.new (takGame basis ev sym) cfg) = .ok (rs, s) →
+        analyze (takGame basis ev sym) cfg o p s = .ok (r, s') →
+        (negamax (takGame basis ev sym) r.2.2.depth.toNat p > Facts.winThreshold → r.2.1 > Facts.winThreshold) ∧
+        (negamax (takGame basis ev sym) r.2.2.depth.toNat p < -Facts.winThreshold → r.2.1 < -Facts.winThreshold)
+
 /-! ### a concrete 3×3 instance (everything evaluated by the kernel) -/
 
 namespace ExTak
@@ -125,5 +218,21 @@ example : (match analyze (takGame ExTak.basis evalWinner) ExTak.cfg Oracle.quiet
       (Eng.new (takGame ExTak.basis evalWinner) ExTak.cfg) with
     | .ok ((ms, v, st), _) => some (ms, v, st.depth)
     | .error _ => none) = some ([⟨0, 2, Facts.mtPlaceFlat, 0⟩], Facts.winBase, 1) := by decide +kernel
+
+/-- the position-side hypotheses of the table theorems hold of the same position with `D := TakD` (`DomClosed`, `D ⊆ TakD`,
+`TakDom`), for the three evaluators; and a history on a 16-entry table returns in the model: the win, a cancelled call
+(seeded by the root's exact entry: still the win), and the start position (nothing decided at depth 3) -/
+example : DomClosed ExTak.basis TakD ∧ TakDom ExTak.basis TakD ExTak.mid ∧ TakDom ExTak.basis TakD ExTak.start ∧
+    EvInside ExTak.basis evalWinner ∧ EvInside ExTak.basis evalMat ∧ EvInside ExTak.basis evalDefault ∧
+    (match runCalls (takGame ExTak.basis evalWinner) { ExTak.cfg with tableEntries := some 16 }
+        [(ExTak.mid, Oracle.quiet), (ExTak.mid, { Oracle.quiet with cancel := fun _ e => decide (2 ≤ e) }),
+         (ExTak.start, Oracle.quiet)]
+        (Eng.new (takGame ExTak.basis evalWinner) { ExTak.cfg with tableEntries := some 16 }) with
+      | .ok (rs, _) => some (rs.map (fun y => y.2))
+      | .error _ => none) = some [Facts.winBase, Facts.winBase, 0] :=
+  ⟨domClosed_takD _, ⟨ExTak.mid_good.1, ExTak.mid_good.2⟩,
+   ⟨(goodPos_new ExTak.basis 3 false ExTak.start (by decide) ExTak.start_ok).1,
+    (goodPos_new ExTak.basis 3 false ExTak.start (by decide) ExTak.start_ok).2⟩,
+   evInside_winner _, evInside_mat _, evInside_default _, by decide +kernel⟩
 
 end C05
